@@ -159,7 +159,6 @@ fn region_of(regs: &[(u64, u64, String)], off: u64) -> String {
 
 fn enumerate_mutations(files: &[PathBuf], stride_cap: u64, rng_seed: u64) -> Vec<Mutation> {
     let mut out = vec![];
-    let _ = rng_seed;
     for (fi, f) in files.iter().enumerate() {
         let len = std::fs::metadata(f).map(|m| m.len()).unwrap_or(0);
         // exhaustive up to stride_cap bytes, stride sampling above
@@ -172,6 +171,14 @@ fn enumerate_mutations(files: &[PathBuf], stride_cap: u64, rng_seed: u64) -> Vec
             out.push(Mutation { file: fi, offset: off, kind: 3 });
             off += stride;
         }
+    }
+    // seeded shuffle (deterministic per tree): whatever prefix of the enumeration a time budget allows is a
+    // uniform sample over all files, regions and mutation kinds instead of "the first files only"; a run that
+    // finishes the list is exhaustive exactly as before
+    let mut rng = Rng::derive(rng_seed, 0xC0_44_07);
+    for i in (1..out.len()).rev() {
+        let j = rng.usize(i + 1);
+        out.swap(i, j);
     }
     out
 }
